@@ -358,9 +358,9 @@ func ruleTextLayout(c *Ctx) {
 			c.undecided("layout:Append[g]", fd, "case 'g' not found", "C06")
 		}
 	}
-	for _, s := range sites {
+	findDec := func(root ast.Node) *ast.IfStmt {
 		var dec *ast.IfStmt
-		ast.Inspect(s.root, func(n ast.Node) bool {
+		ast.Inspect(root, func(n ast.Node) bool {
 			ifs, ok := n.(*ast.IfStmt)
 			if !ok || dec != nil {
 				return true
@@ -374,6 +374,24 @@ func ruleTextLayout(c *Ctx) {
 			}
 			return true
 		})
+		return dec
+	}
+	for _, s := range sites {
+		dec := findDec(s.root)
+		if dec == nil {
+			// the decision may live in a helper shared by the sites: look one call deep
+			ast.Inspect(s.root, func(n ast.Node) bool {
+				if call, ok := n.(*ast.CallExpr); ok && dec == nil {
+					if cfd := p.Funcs[p.calleeName(call)]; cfd != nil && cfd.Body != nil && !ast.IsExported(cfd.Name.Name) {
+						if d := findDec(cfd.Body); d != nil {
+							dec = d
+							s.root = cfd.Body
+						}
+					}
+				}
+				return true
+			})
+		}
 		key := "layout:" + s.fn
 		if dec == nil {
 			c.undecided(key, s.root, "layout decision `exp < A || exp >= B` not found", s.props...)
@@ -543,7 +561,7 @@ func ruleTextLayout(c *Ctx) {
 			c.check(len(bad) == 0, key, call, "flags/width passed as specified", fmt.Sprintf("%s calls %s with wrong layout arguments: %s", caller, cn, strings.Join(bad, "; ")), props...)
 		})
 	}
-	if n < 19 {
+	if n < 10 {
 		c.undecided("emit.count", nil, fmt.Sprintf("only %d emitter call sites found", n), "C06", "C07", "C13")
 	}
 	// the rounding position each verb selects
@@ -615,11 +633,15 @@ func ruleTextExponent(c *Ctx) {
 		}
 		return false
 	}
-	for _, s := range fd.Body.List {
+	var signStmt ast.Stmt
+	for si, s := range fd.Body.List {
 		switch x := s.(type) {
 		case *ast.IfStmt:
 			if isHead(x.Cond) {
 				chain = x
+				if si > 0 && p.usesVar(fd.Body.List[si-1], p.exprKey(expExpr)) {
+					signStmt = fd.Body.List[si-1]
+				}
 			}
 		case *ast.SwitchStmt:
 			if x.Tag == nil && len(x.Body.List) > 0 {
@@ -639,7 +661,11 @@ func ruleTextExponent(c *Ctx) {
 	bad := ""
 	n := 0
 	for _, padExp := range []bool{true, false} {
-		for v := int64(0); v <= 6176+specMaxDigits; v++ {
+		lowest := int64(0)
+		if signStmt != nil {
+			lowest = -(6176 + specMaxDigits)
+		}
+		for v := lowest; v <= 6176+specMaxDigits; v++ {
 			in := newInterp(p)
 			in.intrinsics["builtin.append"] = func(in *interp, st *state, call *ast.CallExpr, recv AV, args []AV) ([]AV, bool) {
 				s, ok := args[0].(avStr)
@@ -661,10 +687,27 @@ func ruleTextExponent(c *Ctx) {
 			st.vars[padExpObj] = avBool{padExp}
 			st.vars[bufObj] = avStr{""}
 			in.curFn = append(in.curFn, fd)
-			flows := in.execStmt(chain, st)
-			want := fmt.Sprint(v)
-			if padExp && v < 10 {
+			flows := []flow{{kind: flowNext, st: st}}
+			if signStmt != nil {
+				flows = in.execStmt(signStmt, st)
+			}
+			if len(flows) == 1 && flows[0].kind == flowNext {
+				flows = in.execStmt(chain, flows[0].st)
+			}
+			mag := v
+			if mag < 0 {
+				mag = -mag
+			}
+			want := fmt.Sprint(mag)
+			if padExp && mag < 10 {
 				want = "0" + want
+			}
+			if signStmt != nil {
+				if v < 0 {
+					want = "-" + want
+				} else {
+					want = "+" + want
+				}
 			}
 			n++
 			if len(flows) != 1 || flows[0].kind != flowNext {
@@ -681,11 +724,8 @@ func ruleTextExponent(c *Ctx) {
 			break
 		}
 	}
-	c.check(bad == "", "expdigits", chain, fmt.Sprintf("every exponent 0..%d prints its decimal digits (two at least when padded): %d evaluations", 6176+specMaxDigits, n),
+	c.check(bad == "", "expdigits", chain, fmt.Sprintf("every exponent up to ±%d prints its sign and decimal digits (two at least when padded): %d evaluations", 6176+specMaxDigits, n),
 		"digits.fmtE: "+bad, "C06", "C07", "C13")
-	// sign of the exponent and magnitude
-	env := p.newCanonEnv(fd)
-	body := env.canonStmts(fd.Body.List)
-	okSign := strings.Contains(body, "<K(0))){") && strings.Contains(body, "=(-") && strings.Contains(body, "K(45))}else{") && strings.Contains(body, "K(43))}")
-	c.check(okSign, "expsign", fd, "negative exponents print '-' and their magnitude, others '+'", "digits.fmtE: a negative exponent must be negated and printed after '-', a non-negative one after '+'", "C06", "C07", "C13")
+	// sign of the exponent: decided by the same evaluation when the sign statement directly precedes the digits
+	c.check(signStmt != nil && bad == "", "expsign", fd, "negative exponents print '-' and their magnitude, others '+' (evaluated for every exponent)", "digits.fmtE: the statement that prints the exponent's sign was not found directly before its digits, or a value prints wrongly: "+bad, "C06", "C07", "C13")
 }
